@@ -28,5 +28,10 @@ Cases ==
     \cup {Case("sym_grad2", F, <<"x">>, <<>>) : F \in Vec2}
     \cup {Case("matrix_div", F \o G, <<"x">>, <<>>) : F \in Vec2, G \in Vec2}
     \cup {Case("rot", F, <<"y">>, <<>>) : F \in VecY}
+    \* one-dimensional derivative variables (single-column matrices, one-component fields) and mixed column groups
+    \cup {Case("matrix_div", F, <<"t">>, <<>>) : F \in Vec2 \cup Vec3}
+    \cup {Case("matrix_div", F \o G, gs, <<>>) : F \in Vec3, G \in {<<p, q, r>> \in Vec3 : p # <<T(1, E7(2,0,1,0))>>}, gs \in {<<"x", "t">>, <<"t", "x">>}}
+    \cup {Case("div", <<p>>, <<"t">>, <<>>) : p \in P1}
+    \cup {Case("jac", F, gs, <<>>) : F \in Vec2, gs \in {<<"t">>, <<"k">>}}
 ASSUME ndJsonSerialize(IOEnv.OUT_FILE, SetToSeq(Cases)) /\ PrintT(<<"SCENARIOS", Cardinality(Cases)>>)
 ==========================================================================
